@@ -12,6 +12,7 @@ respelling must give equal objects (Python equality: dict order ignored) with
 both handlers.
 """
 import base64
+import io
 import copy
 import json
 import os
@@ -43,9 +44,25 @@ def unb64(s: str) -> bytes:
 
 
 # ------------------------------------------------------------------ running the real parsers
-def real_parse(uni, clazz, data: bytes, handler: str, config=None, files=None, xinclude=False):
+class ChunkedSource(io.RawIOBase):
+    """a byte source whose `read()` hands the document out in the given pieces: the read chunks of
+    the tokenisers (16 KiB / 32 KiB in practice) end exactly where the test wants them to"""
+
+    def __init__(self, data: bytes, cuts):
+        pos = [0] + sorted(c for c in set(cuts) if 0 < c < len(data)) + [len(data)]
+        self.pieces = [data[i:j] for i, j in zip(pos, pos[1:])]
+
+    def readable(self):
+        return True
+
+    def read(self, n=-1):
+        return self.pieces.pop(0) if self.pieces else b""
+
+
+def real_parse(uni, clazz, data: bytes, handler: str, config=None, files=None, xinclude=False, cuts=None):
     """XmlParser(handler).from_bytes, or .from_path on a scratch directory when the
-    document is split with XInclude.  Returns the canonical {"ok"| "err"} shape."""
+    document is split with XInclude, or .parse of a source that is read in the pieces given
+    by `cuts`.  Returns the canonical {"ok"| "err"} shape."""
     from xsdata.exceptions import ConverterWarning
     from xsdata.formats.dataclass.context import XmlContext
     from xsdata.formats.dataclass.parsers import XmlParser
@@ -70,6 +87,8 @@ def real_parse(uni, clazz, data: bytes, handler: str, config=None, files=None, x
                         with open(os.path.join(d, name), "wb") as f:
                             f.write(content)
                     obj = p.from_path(pathlib.Path(d) / "main.xml", uni.classes[clazz])
+                elif cuts:
+                    obj = p.parse(ChunkedSource(data, cuts), uni.classes[clazz])
                 else:
                     obj = p.from_bytes(data, uni.classes[clazz])
             except Exception as e:  # noqa: BLE001
@@ -97,12 +116,6 @@ def py_eq_canon(v):
 
 
 # ------------------------------------------------------------------ which respellings stay clear of the listed findings
-def significant_tails(t, top=True):
-    if not top and (t["tl"] or "").strip():
-        return True
-    return any(significant_tails(c, False) for c in t["c"])
-
-
 def prefix_sensitive(t, ann, path=()):
     a = ann.get(path, {})
     for k, v in t["a"]:
@@ -117,14 +130,6 @@ def any_attr_colon(t):
     return any(":" in v for _, v in t["a"]) or any(any_attr_colon(c) for c in t["c"])
 
 
-def wrapper_declares(t, ann, path=(), parent_ns=None):
-    """a wrapper element that carries namespace declarations of its own"""
-    ns = sorted((p or "", u) for p, u in t["ns"])
-    if ann.get(path, {}).get("wrapper") and parent_ns is not None and ns != parent_ns:
-        return True
-    return any(wrapper_declares(c, ann, path + (i,), ns) for i, c in enumerate(t["c"]))
-
-
 SAFE_KINDS = [k for k in R.ALL_KINDS if k not in ("bigpad", "pi_text", "comment_text", "xinclude", "unused_decl")]
 
 
@@ -137,7 +142,7 @@ def pick_kinds(rng, tree, ann):
         kinds.append("pi_text")
     elif r < 0.3:
         kinds.append("comment_text")
-    if rng.random() < 0.08 and not significant_tails(tree):
+    if rng.random() < 0.08:
         kinds.append("bigpad")
     if rng.random() < 0.15 and not any_attr_colon(tree):
         kinds.append("unused_decl")
@@ -148,14 +153,25 @@ def pick_kinds(rng, tree, ann):
     return kinds
 
 
+def pick_cuts(rng, data: bytes):
+    """where the read chunks of the tokeniser end: preferably right after a tag or inside the
+    character data that follows it"""
+    if len(data) < 2 or rng.random() < 0.45:
+        return []
+    ends = [i + 1 for i, b in enumerate(data) if b == 0x3E and i + 1 < len(data)]
+    cuts = []
+    for _ in range(rng.randint(1, 3)):
+        if ends and rng.random() < 0.7:
+            cuts.append(min(len(data) - 1, rng.choice(ends) + rng.choice([0, 0, 1, 2, 3])))
+        else:
+            cuts.append(rng.randint(1, len(data) - 1))
+    return sorted(set(cuts))
+
+
 def handlers_for(kinds, info, tree, ann, new_tree):
     hs = ["native", "lxml"]
-    if info["pi_in_text"] or (info["comment_in_text"] and info["xinclude"]):
-        hs.remove("lxml")  # finding c09-lxml-text-after-pi
     if info["xinclude"] and prefix_sensitive(tree, ann):
         hs.remove("native")  # finding c09-native-xinclude-prefixes
-    elif wrapper_declares(new_tree, ann) and "native" in hs:
-        hs.remove("native")  # finding c09-native-wrapper-declarations
     return hs
 
 
@@ -198,10 +214,12 @@ def gen_respelled(rng, tier):
                 # self-test of the harness: the respeller's own account of what it wrote
                 # against an independent (expat) reading of the bytes
                 raise RuntimeError("c09_rewrite: respelled document does not have the reported infoset: %r" % data[:400])
+            cuts = [] if info["xinclude"] else pick_cuts(rng, data)
             yield {
                 "ctx": ctx, "tree": new_tree, "clazz": "Root", "config": rng.choice(CONFIGS), "desc": desc, "_uni": u.modname,
-                "_kind": kind, "_kinds": info["kinds"], "_doc": b64(data), "_files": {k: b64(v) for k, v in files.items()},
-                "_handlers": hs, "_orig": b64(orig), "_xinclude": info["xinclude"], "_encoding": info["encoding"],
+                "_kind": kind, "_kinds": info["kinds"] + (["chunks"] if cuts else []), "_doc": b64(data),
+                "_files": {k: b64(v) for k, v in files.items()},
+                "_handlers": hs, "_orig": b64(orig), "_xinclude": info["xinclude"], "_encoding": info["encoding"], "_cuts": cuts,
             }
 
 
@@ -239,7 +257,8 @@ def impl_respelled(a):
         return B.real_parse_tree(u, a["clazz"], a["tree"], a["config"])
     outs = []
     for h in a["_handlers"]:
-        outs.append(real_parse(u, a["clazz"], unb64(a["_doc"]), h, a["config"], {k: unb64(v) for k, v in a["_files"].items()}, a["_xinclude"]))
+        outs.append(real_parse(u, a["clazz"], unb64(a["_doc"]), h, a["config"], {k: unb64(v) for k, v in a["_files"].items()},
+                               a["_xinclude"], a.get("_cuts")))
     if all(o == outs[0] for o in outs):
         return outs[0]
     return {"err": "HANDLERS-DISAGREE", "outs": outs}
@@ -258,7 +277,92 @@ def classify_respelled(a, o):
     return f"{a.get('_kind', '?')}:{tag}:{'+'.join(a.get('_handlers', []))}:{r}"
 
 
+# ------------------------------------------------------------------ c09.tails: the tails the handlers pass, per read chunk layout
+_TAILS_DESC = {"classes": [{"name": "Root", "fields": [
+    {"name": "content", "type": {"list": "object"}, "metadata": {"type": "Wildcard", "namespace": "##any", "mixed": True},
+     "default": {"factory": "list"}}]}]}
+_TAILS_UNI = []
+
+
+def gen_tails(rng, tier):
+    """token streams of small mixed-content documents, cut into read chunks at token boundaries and inside
+    character data"""
+    texts = ["TAIL", "x", " ", "a&b", "é", "\n  ", "0"]
+
+    def element(depth):
+        q = rng.choice(["t", "u", "v"])
+        toks = [["s", q]]
+        for _ in range(rng.randint(0, 3)):
+            r = rng.random()
+            if r < 0.45:
+                toks.append(["c", rng.choice(texts)])
+            elif depth < 3:
+                toks += element(depth + 1)
+        toks.append(["e", q])
+        return toks
+
+    for _ in range(n_cases(tier, 400, 6000)):
+        toks = [["s", "Root"]]
+        for _ in range(rng.randint(1, 4)):
+            toks += element(1) if rng.random() < 0.7 else [["c", rng.choice(texts)]]
+        toks.append(["e", "Root"])
+        # split some character runs so that a chunk can end in the middle of a tail
+        split = []
+        for t in toks:
+            if t[0] == "c" and len(t[1]) > 1 and rng.random() < 0.5:
+                i = rng.randint(1, len(t[1]) - 1)
+                split += [["c", t[1][:i]], ["c", t[1][i:]]]
+            else:
+                split.append(t)
+        cuts = sorted({rng.randint(1, len(split) - 1) for _ in range(rng.randint(0, 4))}) if len(split) > 2 else []
+        pos = [0] + cuts + [len(split)]
+        yield {"chunks": [split[i:j] for i, j in zip(pos, pos[1:]) if i < j]}
+
+
+def _tok_bytes(t):
+    if t[0] == "s":
+        return ("<%s>" % t[1]).encode()
+    if t[0] == "e":
+        return ("</%s>" % t[1]).encode()
+    return t[1].replace("&", "&amp;").replace("<", "&lt;").encode()
+
+
+def impl_tails(a):
+    from xsdata.formats.dataclass.context import XmlContext
+    from xsdata.formats.dataclass.parsers.bases import RecordParser
+    from xsdata.formats.dataclass.parsers.handlers import LxmlEventHandler, XmlEventHandler
+
+    if not _TAILS_UNI:
+        _TAILS_UNI.append(B.Universe(_TAILS_DESC))
+    u = _TAILS_UNI[0]
+    pieces = [b"".join(_tok_bytes(t) for t in c) for c in a["chunks"]]
+    data = b"".join(pieces)
+    cuts, n = [], 0
+    for pc in pieces[:-1]:
+        n += len(pc)
+        cuts.append(n)
+    outs = []
+    for h in (XmlEventHandler, LxmlEventHandler):
+        p = RecordParser(context=XmlContext(models_package=u.modname), handler=h)
+        try:
+            p.parse(ChunkedSource(data, cuts), u.classes["Root"])
+        except Exception as e:  # noqa: BLE001
+            outs.append(B.classify_exc(e))
+            continue
+        outs.append({"ok": [ev[3] for ev in p.events if ev[0] == "end"]})
+    if outs[0] == outs[1]:
+        return outs[0]
+    return {"err": "HANDLERS-DISAGREE", "outs": outs}
+
+
+def classify_tails(a, o):
+    return f"{min(len(a['chunks']), 4)} chunks:{'ok' if 'ok' in o else o.get('err')}"
+
+
 CORRS = [
+    Corr("c09.tails", gen_tails, impl_tails, classify=classify_tails,
+         describe="the tail passed to parser.end for every element by XmlEventHandler and LxmlEventHandler reading a source in given pieces "
+                  "vs the model's deferredReads"),
     Corr("bind.parse", gen_respelled, impl_respelled, compare=cmp_respelled, classify=classify_respelled,
          describe="XmlParser.from_bytes/from_path with XmlEventHandler and LxmlEventHandler on respelled documents vs the model on the respelled infoset"),
 ]
@@ -279,10 +383,11 @@ def gen_oracle(rng, tier):
                 data, files, _new_tree, info = R.respell(tree, ann, rng, kinds)
             except R.Skip:
                 continue
+            cuts = [] if info["xinclude"] else pick_cuts(rng, data)
             yield {
                 "desc": desc, "_uni": u.modname, "clazz": "Root", "config": {}, "orig": b64(orig), "doc": b64(data),
-                "files": {k: b64(v) for k, v in files.items()}, "xinclude": info["xinclude"], "kinds": info["kinds"],
-                "encoding": info["encoding"],
+                "files": {k: b64(v) for k, v in files.items()}, "xinclude": info["xinclude"],
+                "kinds": info["kinds"] + (["chunks"] if cuts else []), "encoding": info["encoding"], "cuts": cuts,
             }
 
 
@@ -292,6 +397,7 @@ def adapt_corr_case(op, a):
     return {
         "desc": a["desc"], "_uni": a.get("_uni"), "clazz": a["clazz"], "config": a.get("config", {}), "orig": a["_orig"],
         "doc": a["_doc"], "files": a["_files"], "xinclude": a["_xinclude"], "kinds": a["_kinds"], "encoding": a["_encoding"],
+        "cuts": a.get("_cuts") or [],
     }
 
 
@@ -301,7 +407,7 @@ def four_results(a):
     out = {}
     for h in ("native", "lxml"):
         out["orig/" + h] = py_eq_canon(real_parse(u, a["clazz"], unb64(a["orig"]), h, a["config"]))
-        out["new/" + h] = py_eq_canon(real_parse(u, a["clazz"], unb64(a["doc"]), h, a["config"], files, a["xinclude"]))
+        out["new/" + h] = py_eq_canon(real_parse(u, a["clazz"], unb64(a["doc"]), h, a["config"], files, a["xinclude"], a.get("cuts")))
     return out
 
 
@@ -310,6 +416,10 @@ def oracle_check(a):
     ref = r["orig/native"]
     bad = [k for k, v in r.items() if v != ref]
     if not bad:
+        return None
+    if "value_ws" in a["kinds"] and not all("ok" in r[k] and r[k]["ok"]["warnings"] == 0 for k in ("orig/native", "orig/lxml")):
+        # padding is a respelling of a *valid* lexical value only: a value that does not convert is kept
+        # as the raw string, padding included (the property quantifies over documents valid for the model)
         return None
     k = bad[0]
     return (f"respelling {a['kinds']}: {k} differs from orig/native: "
@@ -331,74 +441,22 @@ def mask_any_attrs(v):
     return v
 
 
-def _decode(data: bytes, enc: str) -> str:
-    if enc in ("utf-16", "utf-16-be", "utf-16-le"):
-        return data.decode("utf-16")
-    return data.decode(enc)
-
-
-def _encode(text: str, enc: str, like: bytes) -> bytes:
-    if enc in ("utf-16", "utf-16-be", "utf-16-le"):
-        if like[:2] == b"\xfe\xff":
-            return b"\xfe\xff" + text.encode("utf-16-be")
-        return b"\xff\xfe" + text.encode("utf-16-le")
-    return text.encode(enc)
-
-
-def without(a, pattern):
-    """the same respelling with the suspected trigger (a regex over the document text) removed"""
-    b = dict(a)
-    enc = a.get("encoding", "utf-8")
-
-    def strip(data):
-        return _encode(re.sub(pattern, "", _decode(data, enc)), enc, data)
-
-    b["doc"] = b64(strip(unb64(a["doc"])))
-    b["files"] = {k: b64(strip(unb64(v))) for k, v in a["files"].items()}
-    return b
-
-
 def oracle_covered(a, msg):
-    """Attribute a failing input to listed findings, result by result, by counterfactuals: the
-    difference must disappear when the trigger of the finding is taken out.  Every differing
-    result needs an explanation; the first finding id is returned."""
+    """Attribute a failing input to the listed findings, result by result; every differing result
+    needs an explanation; the first finding id is returned."""
     u = uni_of(a)
     r = four_results(a)
     found = []
-    ref_key = "orig/native"
     if r["orig/native"] != r["orig/lxml"]:
-        # the original spelling itself: only the wrapper-declaration defect of the native handler is listed
-        try:
-            t = R.infoset(unb64(a["orig"]))
-            if not wrapper_declares(t, R.annotate(u, t)):
-                return None
-        except Exception:  # noqa: BLE001
-            return None
-        found.append("c09-native-wrapper-declarations")
-        ref_key = "orig/lxml"
-    ref = r[ref_key]
+        return None  # the two handlers disagree on the original spelling: nothing listed explains that
+    ref = r["orig/native"]
     m = mask_any_attrs
-    bad_plain = {k for k, v in r.items() if v != ref and k != "orig/native"}
+    bad_plain = {k for k, v in r.items() if v != ref}
     bad = {k for k in bad_plain if m(r[k]) != m(ref)}
     if bad_plain - bad:
         found.append("c09-any-attr-prefix")
-    cache = {}
-
-    def counterfactual(pattern):
-        if pattern not in cache:
-            cache[pattern] = four_results(without(a, pattern))
-        return cache[pattern]
 
     def explain(k):
-        handler = k.split("/")[1]
-        if k.startswith("new/") and "bigpad" in a["kinds"]:
-            if m(counterfactual(r"<!--c{1000,}-->")[k]) == m(ref):
-                return "c09-tail-chunk-boundary"
-        if k == "new/lxml" and ("pi_text" in a["kinds"] or ("comment_text" in a["kinds"] and a["xinclude"])):
-            # the listed defect: PIs inside text always, comments inside text only on the process_xinclude path
-            trigger = r"<\?t x\?>|<!--t-->" if a["xinclude"] else r"<\?t x\?>"
-            if m(counterfactual(trigger)[k]) == m(ref):
-                return "c09-lxml-text-after-pi"
         if k == "new/native" and a["xinclude"]:
             # with process_xinclude the native handler walks an ElementTree and invents the prefixes:
             # every document whose content uses prefixes (QName values, xsi:type, name-like wildcard
@@ -407,13 +465,6 @@ def oracle_covered(a, msg):
                 t = R.infoset(unb64(a["orig"]))
                 if prefix_sensitive(t, R.annotate(u, t)):
                     return "c09-native-xinclude-prefixes"
-            except Exception:  # noqa: BLE001
-                pass
-        if k == "new/native" and not a["xinclude"]:
-            try:
-                t = R.infoset(unb64(a["doc"]))
-                if wrapper_declares(t, R.annotate(u, t)):
-                    return "c09-native-wrapper-declarations"
             except Exception:  # noqa: BLE001
                 pass
         return None
@@ -426,8 +477,20 @@ def oracle_covered(a, msg):
     return found[0] if found else None
 
 
+def oracle_chunking(a):
+    """the same document read in one piece and in the given pieces: same tails, both handlers"""
+    whole = impl_tails({"chunks": [[t for c in a["chunks"] for t in c]]})
+    cut = impl_tails(a)
+    if "ok" not in whole:
+        return f"reading the document in one piece: {whole}"
+    if cut != whole:
+        return f"read in {len(a['chunks'])} pieces the tails are {json.dumps(cut, ensure_ascii=False)[:300]}, in one piece {json.dumps(whole, ensure_ascii=False)[:300]}"
+    return None
+
+
 ORACLES = [
     Oracle("respelling-invariance", gen_oracle, oracle_check, covered=oracle_covered, from_ops=("bind.parse",), adapt=adapt_corr_case),
+    Oracle("chunking-invariance", gen_tails, oracle_chunking, from_ops=("c09.tails",)),
 ]
 
 
@@ -436,10 +499,7 @@ def _mini(fields, extra_classes=()):
     return {"classes": list(extra_classes) + [{"name": "Root", "fields": fields}]}
 
 
-_T = {"name": "t", "type": {"opt": "str"}, "metadata": {"type": "Element"}, "default": {"value": None}}
 _ATTRS = {"name": "attrs", "type": {"dict": 1}, "metadata": {"type": "Attributes", "namespace": "##any"}, "default": {"factory": "dict"}}
-_MIXED = {"name": "content", "type": {"list": "object"}, "metadata": {"type": "Wildcard", "namespace": "##any", "mixed": True}, "default": {"factory": "list"}}
-_QWRAP = {"name": "q", "type": {"list": "qname"}, "metadata": {"type": "Element", "wrapper": "qs"}, "default": {"factory": "list"}}
 _Q = {"name": "q", "type": {"opt": "qname"}, "metadata": {"type": "Element"}, "default": {"value": None}}
 
 
@@ -451,12 +511,6 @@ def _vals(desc, docs, handler, xinclude=False):
         u.close()
 
 
-def finding_lxml_pi():
-    a, b = _vals(_mini([_T]), [b"<Root><t>abc</t></Root>", b"<Root><t>ab<?pi x?>c</t></Root>"], "lxml")
-    n = _vals(_mini([_T]), [b"<Root><t>ab<?pi x?>c</t></Root>"], "native")[0]
-    return a != b, f"lxml: {json.dumps(a)} vs {json.dumps(b)}; native on the second: {json.dumps(n)}"
-
-
 def finding_any_attr_prefix():
     outs = []
     for h in ("native", "lxml"):
@@ -466,25 +520,6 @@ def finding_any_attr_prefix():
     return still, f"{json.dumps(outs[0][0])} vs {json.dumps(outs[0][1])}"
 
 
-def finding_tail_chunk():
-    res = {}
-    for h, size in (("native", 16 * 1024), ("lxml", 32 * 1024)):
-        base = b"<Root><t>x</t>TAILTEXT<t>y</t></Root>"
-        ref = _vals(_mini([_MIXED]), [base], h)[0]
-        lost = None
-        # move the boundary of the handler's read chunk over the tail text
-        for shift in range(10, 60, 2):
-            pad = size - shift
-            doc = b"<Root><!--" + b"c" * pad + b"--><t>x</t>TAILTEXT<t>y</t></Root>"
-            got = _vals(_mini([_MIXED]), [doc], h)[0]
-            if got != ref:
-                lost = (pad, got)
-                break
-        res[h] = lost
-    still = any(v is not None for v in res.values())
-    return still, "; ".join(f"{h}: comment of {v[0]} chars before the root changes the object to {json.dumps(v[1])[:200]}" if v else f"{h}: stable" for h, v in res.items())
-
-
 def finding_native_xinclude():
     doc = b'<Root xmlns:z="urn:z"><q>z:n1</q></Root>'
     a = _vals(_mini([_Q]), [doc], "native")[0]
@@ -492,18 +527,9 @@ def finding_native_xinclude():
     return a != b, f"process_xinclude off: {json.dumps(a)}; on (same file, no include in it): {json.dumps(b)}"
 
 
-def finding_native_wrapper():
-    a, b = _vals(_mini([_QWRAP]), [b'<Root xmlns:z="urn:z"><qs><q>z:n1</q></qs></Root>', b'<Root><qs xmlns:z="urn:z"><q>z:n1</q></qs></Root>'], "native")
-    c = _vals(_mini([_QWRAP]), [b'<Root><qs xmlns:z="urn:z"><q>z:n1</q></qs></Root>'], "lxml")[0]
-    return a != b, f"native: {json.dumps(a)} vs {json.dumps(b)}; lxml on the second: {json.dumps(c)}"
-
-
 FINDINGS = {
-    "c09-lxml-text-after-pi": finding_lxml_pi,
     "c09-any-attr-prefix": finding_any_attr_prefix,
-    "c09-tail-chunk-boundary": finding_tail_chunk,
     "c09-native-xinclude-prefixes": finding_native_xinclude,
-    "c09-native-wrapper-declarations": finding_native_wrapper,
 }
 
 TRUSTED = [
@@ -523,5 +549,5 @@ LEVEL_TEXT = "proof (model: attribute order, ignorable white space, padded value
 LEVEL_NOTE = (
     "Theorems in Props/C09.lean are about the Lean model of NodeParser on the infoset Tree; the respellings that the tokenisers resolve "
     "(comments, PIs, CDATA, character references, encodings, XInclude) are invisible to that interface by construction and are checked by "
-    "sampling only. Five listed findings are excluded regions."
+    "sampling only, except for the read chunks of the tokeniser (Backends/Chunks.lean, section 6). Two listed findings are excluded regions."
 )
